@@ -116,6 +116,10 @@ func judge(j job, o *runObs, sc scaled) verdict {
 		en := o.Enters[f.Pos-1]
 		st := a.state(en.State)
 		d := armedDur(a, sc, en.State, en.TF)
+		if ex, ok := expectedTimeouts[a.Name]; ok && !inList(name(en.State), ex) {
+			// the specification table (not the table read from the code) says this state has no timeout
+			return verdict{"spurious-unspecified:" + name(en.State), fmt.Sprintf("timeout error %v after entering %s, a state for which the specification declares no timeout (the constructor installed %v)", f.T-en.T, name(en.State), d)}
+		}
 		switch {
 		case f.Pos == 1:
 			return verdict{"spurious-initial:" + name(en.State), fmt.Sprintf("timeout error %v after the initial entry", f.T-en.T)}
